@@ -1209,7 +1209,8 @@ func (g *Gen) containerStmt(depth int) []*S {
 	}
 	switch g.r.Intn(4) {
 	case 0, 1:
-		if len(slices) == 0 {
+		if len(slices) == 0 || g.loop >= 2 {
+			// (an append inside nested loops can feed the range of an outer loop: the slice then grows geometrically)
 			return nil
 		}
 		v := slices[g.r.Intn(len(slices))]
